@@ -156,7 +156,14 @@ def check_c16(prop, tier):
 
 
 # ------------------------------------------------------------------------------------------ C17
-GARBAGE_PATCH = b'--- a/a\n+++ b/a\n@@ -1,2 +1,2 @@\n ctx 1.1\nthis is not a hunk line\n'
+GOOD_SECTION = b'--- a/other\n+++ b/other\n@@ -1 +1 @@\n-untouched\n+touched\n'
+BROKEN = {      # one representative per error class of the parser model; each starts with a complete, applicable file section
+    'garbage': GOOD_SECTION + b'--- a/a\n+++ b/a\n@@ -1,2 +1,2 @@\n ctx 1.1\nthis is not a hunk line\n',      # BadLineInHunk
+    'truncated': GOOD_SECTION + b'--- a/a\n+++ b/a\n@@ -1,3 +1,3 @@\n ctx 1.1\n-ctx 1.2',                          # UnexpectedEndOfFile in the middle of a hunk
+    'badheader': GOOD_SECTION + b'--- a/a\n+++ b/a\n@@ -1,x +1 @@\n-a\n+b\n',                                    # BadHunkHeader
+    'nofilename': GOOD_SECTION + b'--- /dev/null\n+++ /dev/null\n@@ -1 +1 @@\n-a\n+b\n',                          # MissingFilenameForHunk
+    'binary': GOOD_SECTION + b'diff --git a/a b/a\nGIT binary patch\nliteral 0\n',                                  # UnsupportedMetadata
+}
 
 
 def goal_args(goal):
@@ -177,8 +184,8 @@ def state_job(job):
         ws.write(w, 'other', b'untouched\n')
         for i, name in enumerate(st['series'], 1):
             if st['broken']['pos'] == i:
-                if st['broken']['how'] == 'garbage':
-                    ws.write(w, 'patches/' + name, GARBAGE_PATCH)
+                if st['broken']['how'] != 'missing':
+                    ws.write(w, 'patches/' + name, BROKEN[st['broken']['how']])
                 continue
             fp = {'kind': 'M', 'old': 'a', 'new': 'a', 'ren': False, 'hunks': [{'cell': i, 'from': 0, 'to': 1}], 'to': [], 'from': [], 'nmode': 'none'}
             ws.write(w, 'patches/' + name, scen.render_fp(fp))
